@@ -126,6 +126,8 @@ impl<S: Sample> FrameRenderHandle<S> {
     }
 
     pub fn run_with_image(self: Arc<Self>) -> Result<RenderedImage<S>> {
+        #[cfg(jxl_oxide_verif)]
+        crate::verif_sync::handle_request(self.frame.idx);
         let render = if let Some(state) = self.start_render()? {
             let _guard = tracing::trace_span!("Run with image", index = self.frame.idx).entered();
 
